@@ -493,10 +493,10 @@ CHECKS["C17"] = {
                  "phases up to a preemption bound; each execution's evaluation log is checked against the expectations recorded at every schedule() call",
     "design_ref": "DESIGN.md 2/C17",
     "parts": [{"name": "sched", "exe": "c17_realtime", "sources": ["c17_realtime.cpp"], "shards": 32, "pin": True}],
-    "rule": "graph: a scripted timer node (start script + per-evaluation scripts of r<d> relative, a<d> absolute, w<d> wall-clock alarm incl. already-due "
+    "rule": "graph: a scripted timer node (start script + per-evaluation scripts of r<d> relative, a<d> absolute, w<d> absolute and v<d> relative wall-clock alarm incl. already-due "
             "d<=0, L<d> burn d us of wall time, S request_stop from inside the node) feeding a sink, optionally a queue push source feeding a second sink. Threads: E = run(), optional "
             "producer (1-2 try_send), optional stopper (request_stop; gated either on the end of the graph's start or on its beginning, so that a stop can land DURING start). The wall clock is virtual: it advances only when the scheduler expires a timed "
-            "wait (jump to its deadline), when a node burns time, and by 1 us at the end of the start and of every cycle (nodes can observe a wall clock exactly equal to their evaluation time). Configurations: 12 start scripts x 11 evaluation "
+            "wait (jump to its deadline), when a node burns time, and by 1 us at the end of the start and of every cycle (nodes can observe a wall clock exactly equal to their evaluation time). Configurations: 13 start scripts x 13 evaluation "
             "scripts x pushes {0,1,2} x stopper x wall clock at start {on time, 250 us late} x end_time {1 s, 250 us}. Per execution: evaluation "
             "times strictly increase and stay below end_time; no cycle and no timer evaluation runs before the wall clock reached its logical time; "
             "the timer node is evaluated only at expected times; every expected time before end_time is evaluated at exactly that time (also when "
